@@ -1,0 +1,55 @@
+//go:build verif
+
+// Contracts for the deductive verification in /verif (govc). This file contains
+// comments only; it is compiled only with -tags verif and declares nothing.
+
+package microsoft
+
+// ---------------------------------------------------------------- parse
+//
+// A parser of untrusted bytes must not panic and must not allocate more than its input
+// justifies (every make/append at most len(byteData) elements). TWO OBLIGATIONS ARE
+// EXPECTED TO FAIL on the code as it is (defect S5, demonstrated in
+// /verif/notes/revocation.md; implicit obligations cannot carry a defect_ tag):
+//   parse#nil.1    cert.SerialNumber after the ignored error of x509.ParseCertificate
+//   parse#alloc.1  make([]byte, len) with the 32-bit length field taken from the input
+// parse#alloc.2-4 (the appends) and termination are true but not provable with the shared
+// contract of encoding/binary.Read, which does not model the reader's position (each
+// appended element consumed at least 4 input bytes; an exhausted reader leaves id == 0 and
+// ends the loop). `modifies all`: the loop summary of govc cannot keep the frame across
+// binary.Read into loop-local variables.
+//@ func parse
+//@   alloc <= len(byteData)
+//@   loop 2 invariant disallowed != nil && disallowed.IssuerLists != nil && fresh(disallowed) && fresh(disallowed.IssuerLists)
+//@   ensures result1 == nil ==> result0 != nil && fresh(result0)
+//@   ensures result1 != nil ==> result0 == nil
+//@   modifies all
+
+// ---------------------------------------------------------------- Check
+//
+// ghost.nameString(n, k): k is the string form n.String() of the distinguished name n (an
+// uninterpreted functional relation, see /verif/extern/revocation.contracts).
+//
+// Representation invariant of a parsed store: every issuer list filed in the map holds
+// non-nil entries with non-nil serial numbers (what parse builds from parsed certificates).
+// ghost.filed is an auxiliary, otherwise unconstrained relation: okStore(d) says that some
+// set of lists contains every list of the map and consists of well-formed lists only, i.e.
+// exactly "every list of the map is well formed" (take the set of the map's values); the
+// contract holds for every such relation, in particular for that set.
+// (Quantifiers over list positions are written over i+1 so that their triggers match the
+// counter of a range loop; "exists" is written as a negated forall to carry a trigger.)
+//@ pred okList(l) = forall(i, -1, len(l.Entries) - 1, l.Entries[i+1] != nil && l.Entries[i+1].SerialNumber != nil, l.Entries[i+1])
+//@ pred entryOf(l, r) = !forall(i, -1, len(l.Entries) - 1, l.Entries[i+1] != r, l.Entries[i+1])
+//@ pred okStore(d) = d != nil && forallv(k, string, d.IssuerLists[k] != nil ==> ghost.filed(d, d.IssuerLists[k])) && forallv(l, *IssuerList, ghost.filed(d, l) ==> okList(l))
+
+// Check reports only entries of the list filed under the certificate's issuer name
+// ([issuer]), nothing when there is no such list ([nolist]). That the reported entry is the
+// FIRST one whose serial number equals the certificate's, and that nil means there is none,
+// needs a functional contract of (*big.Int).Cmp: see /verif/notes/revocation.md.
+//@ func Check
+//@   requires okStore(disallowed) && cert != nil && cert.SerialNumber != nil
+//@   ensures [issuer] forallv(k, string, ghost.nameString(cert.Issuer, k) && result != nil ==> disallowed.IssuerLists[k] != nil && !forallv(l, *IssuerList, !(l == disallowed.IssuerLists[k] && entryOf(l, result))))
+//@   ensures [nolist] forallv(k, string, ghost.nameString(cert.Issuer, k) && disallowed.IssuerLists[k] == nil ==> result == nil)
+//@   ensures [member] result != nil ==> !forallv(l, *IssuerList, !(ghost.filed(disallowed, l) && entryOf(l, result)))
+//@   ensures [empty]  forallv(k, string, disallowed.IssuerLists[k] == nil) ==> result == nil
+//@   terminates
